@@ -455,6 +455,13 @@ impl Config {
                             let end = end.ok_or_else(|| {
                                 Error::InvalidConfig("Missing end in range".into())
                             })?;
+                            /* The same bound as apply-subnet: a /8 worth of addresses. */
+                            if u32::from(end).saturating_sub(u32::from(start)) >= 1 << 24 {
+                                return Err(Error::InvalidConfig(format!(
+                                    "apply-range: {} to {} is too large to be an address pool (at most 16777216 addresses)",
+                                    start, end
+                                )));
+                            }
                             let addresses = addresses.get_or_insert_with(Vec::new);
                             for i in u32::from(start)..=u32::from(end) {
                                 addresses.push(i.into());
